@@ -2255,3 +2255,11 @@ F_TM = "src/interrogate/typeManager.cxx"
 M("C05-signature-key-strips-every-reference", "C05", F_TM,
   "    if (is_const_ref_to_anything(ptype)) {\n      ptype = unwrap_const_reference(ptype);\n    }\n", "    ptype = unwrap_const_reference(ptype);\n",
   expect="R05.12|get_function_signature|")
+
+# ---- R02.12 (S9-C02: the packed argument tuple of mp_ass_subscript leaked)
+M("C02-setitem-dispatch-does-not-release-args", "C02", F_PN,
+  "                                       true, true, AT_varargs, RF_int | RF_decref_args, false)) {", "                                       true, true, AT_varargs, RF_int, false)) {",
+  expect="R02.12|write_module_class@")
+M("C02-ternary-dispatch-does-not-release-args", "C02", F_PN,
+  "                                       true, true, AT_varargs, return_flags | RF_decref_args, true)) {", "                                       true, true, AT_varargs, return_flags, true)) {",
+  expect="R02.12|write_module_class@")
